@@ -94,6 +94,8 @@ impl C01 {
             add("C20", Box::new(c20::C20::new(Tier::Quick)));
         } else {
             add("C20", Box::new(c20::C20::shallow(5, 3)));
+            // single-typo queries against words in the middle of a title reach the joined-word and split paths
+            add("C04", Box::new(c04::C04::slim()));
         }
         #[cfg(lucid_suggest_verif)]
         {
@@ -121,7 +123,7 @@ impl C01 {
             add("C08", Box::new(c08::C08::new(Tier::Quick)));
             add("C09", Box::new(c09::C09::new(Tier::Quick)));
         } else {
-            deferred = vec!["C02", "C03", "C04", "C05", "C06", "C07", "C08", "C09", "C11", "C13", "C14", "C20 beyond depth 5"];
+            deferred = vec!["C02", "C03", "C04 beyond its slim slice", "C05", "C06", "C07", "C08", "C09", "C11", "C13", "C14", "C20 beyond depth 5"];
         }
         let mut map = Vec::new();
         let mut doms = Vec::new();
